@@ -12,3 +12,41 @@ pub open spec fn flags_wire(flags: u32) -> bool { flags < 0x1000000 }
 
 /// reference encoder of the FullBox header
 pub open spec fn fullbox_bytes(version: u8, flags: u32) -> Seq<u8> { seq![version] + be_bytes(flags as nat, 3) }
+
+// ---- ftyp: ISO/IEC 14496-12 section 4.3  FileTypeBox extends Box('ftyp')
+//   unsigned int(32) major_brand; unsigned int(32) minor_version; unsigned int(32) compatible_brands[]; // to end of the box
+pub open spec fn ftyp_len(b: FtypBox) -> int { 16 + 4 * (b.compatible_brands@.len() as int) }
+
+pub open spec fn ftyp_wire(b: FtypBox) -> bool { ftyp_len(b) <= 0xffff_ffff }
+
+pub open spec fn ftyp_brands_at(d: Seq<u8>, p: int, e: Seq<FourCC>, n: int) -> bool {
+    forall|j: int| 0 <= j < n ==> be32(d, p + 16 + 4 * j) == u32_of_fourcc(#[trigger] e[j])
+}
+
+pub open spec fn ftyp_at(d: Seq<u8>, p: int, size: int, b: FtypBox) -> bool {
+    &&& be32(d, p + 8) == u32_of_fourcc(b.major_brand)
+    &&& be32(d, p + 12) == b.minor_version
+    &&& size == ftyp_len(b)
+    &&& ftyp_brands_at(d, p, b.compatible_brands@, b.compatible_brands@.len() as int)
+}
+
+pub open spec fn ftyp_prefix(b: FtypBox, n: int) -> Seq<u8>
+    decreases n
+{
+    if n <= 0 {
+        hdr_bytes(ftyp_len(b) as u64, 0x66747970) + be_bytes(u32_of_fourcc(b.major_brand) as nat, 4) + be_bytes(b.minor_version as nat, 4)
+    } else {
+        ftyp_prefix(b, n - 1) + be_bytes(u32_of_fourcc(b.compatible_brands@[n - 1]) as nat, 4)
+    }
+}
+
+pub open spec fn ftyp_bytes(b: FtypBox) -> Seq<u8> { ftyp_prefix(b, b.compatible_brands@.len() as int) }
+
+pub broadcast proof fn lemma_ftyp_prefix_len(b: FtypBox, n: int)
+    requires ftyp_wire(b), 0 <= n
+    ensures (#[trigger] ftyp_prefix(b, n)).len() == 16 + 4 * n
+    decreases n
+{
+    broadcast use group_stream;
+    if n > 0 { lemma_ftyp_prefix_len(b, n - 1); }
+}
